@@ -108,17 +108,43 @@ class RunTest:
             if self._exceptions:
                 # One or more caught exceptions, now trigger the test's
                 # reporting method for just one.
-                e = self._exceptions.pop()
-                for exc_class, handler in self.handlers:
-                    if isinstance(e, exc_class):
-                        handler(self.case, self.result, e)
-                        break
+                e = self._select_exception()
+                handler = self._handler_for(e)
+                if handler is not None:
+                    handler(self.case, self.result, e)
                 else:
                     self.last_resort(self.case, self.result, e)
                     raise e
         finally:
             result.stopTest(self.case)
         return result
+
+    def _handler_for(self, e):
+        """Return the first handler registered for e's type, or None."""
+        for exc_class, handler in self.handlers:
+            if isinstance(e, exc_class):
+                return handler
+        return None
+
+    def _select_exception(self):
+        """Choose which of the caught exceptions determines the outcome.
+
+        An exception that no handler claims (KeyboardInterrupt, SystemExit)
+        has to propagate, so it always wins. Otherwise the last exception
+        wins, except that a skip or an expected failure never masks an
+        exception that denotes a problem.
+        """
+        for e in self._exceptions:
+            if self._handler_for(e) is None:
+                return e
+        benign = (
+            getattr(self.case, "_report_skip", None),
+            getattr(self.case, "_report_expected_failure", None),
+        )
+        for e in reversed(self._exceptions):
+            if self._handler_for(e) not in benign:
+                return e
+        return self._exceptions[-1]
 
     def _run_core(self):
         """Run the user supplied test code."""
